@@ -846,7 +846,17 @@ class Engine:
         return PyList([self.eval(x) for x in e.elts])
 
     def e_JoinedStr(self, e):
-        return Opaque('fstring')
+        from .models.strings import FString
+        parts = []
+        for v in e.values:
+            if isinstance(v, ast.Constant):
+                parts.append(v.value)
+            else:
+                try:
+                    parts.append(self.eval(v.value))
+                except (Unsupported, PyRaise):
+                    parts.append(Opaque('unevaluated'))   # operands of log/exception texts are not modelled
+        return FString(parts)
 
     def e_Lambda(self, e):
         return Closure(e, self.env)
@@ -855,6 +865,8 @@ class Engine:
         t = ast.unparse(e)
         if t in LIB_CONSTS:
             return LIB_CONSTS[t]
+        if ('attr:' + t) in self.c.models:
+            return self.c.models['attr:' + t](self)
         base = self.eval(e.value)
         return self.getattr(base, e.attr, t)
 
